@@ -77,8 +77,79 @@ func runDebug(cmd, repo string, args []string) {
 		fmt.Println("ERR", err)
 		os.Exit(2)
 	}
-	fmt.Printf("loaded in %.2fs\n", time.Since(t0).Seconds())
+	if cmd != "gen-siblings" {
+		fmt.Printf("loaded in %.2fs\n", time.Since(t0).Seconds())
+	}
 	switch cmd {
+	case "cells":
+		cells, err := jpCells(prog, args)
+		if err != nil {
+			fmt.Println("ERR", err)
+			os.Exit(2)
+		}
+		groups := map[string][]jpCell{}
+		for _, c := range cells {
+			g := c.Eval + "/" + c.Frag + "/" + c.Pos
+			groups[g] = append(groups[g], c)
+		}
+		var gk []string
+		for k := range groups {
+			gk = append(gk, k)
+		}
+		sort.Strings(gk)
+		for _, k := range gk {
+			classes := map[string][]string{}
+			for _, c := range groups[k] {
+				classes[c.Skel] = append(classes[c.Skel], c.Cont)
+			}
+			fmt.Printf("%s: %d cells, %d classes\n", k, len(groups[k]), len(classes))
+			for sk, cs := range classes {
+				fmt.Printf("    %v  len=%d hash=%x\n", cs, len(sk), hashStr(sk))
+			}
+		}
+	case "gen-siblings":
+		t, err := genSiblingTable(prog)
+		if err != nil {
+			fmt.Println("ERR", err)
+			os.Exit(2)
+		}
+		fmt.Print(t)
+		return
+	case "arith":
+		// args: frag evaluators...
+		cells, err := jpCells(prog, args[1:])
+		if err != nil {
+			fmt.Println("ERR", err)
+			os.Exit(2)
+		}
+		seen := map[string]bool{}
+		classes := map[string][]string{}
+		for _, c := range cells {
+			if c.Frag != args[0] {
+				continue
+			}
+			id := c.Eval + "/" + c.Cont
+			if seen[id] {
+				continue
+			}
+			seen[id] = true
+			fp := arithFingerprint(prog, prog.Pkg("jp"), c.Clause, c.ContVar)
+			k := ""
+			for _, l := range fp {
+				k += l + "\n"
+			}
+			classes[k] = append(classes[k], id)
+		}
+		for k, ids := range classes {
+			fmt.Printf("CLASS %v\n%s\n", ids, k)
+		}
+	case "cell":
+		cells, _ := jpCells(prog, args[:1])
+		for _, c := range cells {
+			if c.Key() == args[1] {
+				fmt.Println(c.Skel)
+			}
+		}
 	case "machine":
 		// args: rel type root [multi]
 		m, err := ExtractMachine(prog, args[0], args[1], []string{args[2]})
